@@ -97,6 +97,8 @@ Req ==
            FreshConnAfterBreak == broken[ep] # 0 => E.conn # broken[ep]
            OnKnownConn == <<ep, E.conn>> \in conns
            isAck == E.ack /\ WellFormed
+           \* (dec: ack | reject | stall | stallbody | stalltrail | dropb | dropa | after_stall;
+           \*  a stall after the response head leaves the connection usable)
            breaks == E.dec \in {"dropb", "dropa"} \/ (http1 /\ E.dec \in {"stall", "after_stall"})
            nstreak == IF isAck THEN 0 ELSE streak[ep] + 1
            \* an outage of one signal's endpoint does not stop the others
